@@ -25,6 +25,8 @@ type Node struct {
 type Doc struct {
 	Top   []*Node
 	lines []string
+	// twins are nodes whose children are identical texts: preferred cut candidates
+	twins []*Node
 }
 
 type genCfg struct {
@@ -32,6 +34,7 @@ type genCfg struct {
 	RPC                                       bool
 	RuleFuzz                                  bool // schema rules with edge values ({type: ""}, {or: []}, ...): mostly invalid documents
 	PathBodyFuzz                              bool // Path bodies that are not objects (type references incl. regex types, arrays, scalars)
+	TwinURLs                                  bool // two URLs with identical children (a method with its own Path): one file can be included from both
 	MessyAnn                                  bool // annotations with tabs, runs of spaces and multi-line /* */ form
 	UnusedMacros                              int  // macros that nobody pastes, with bodies of kinds used nowhere else
 	MacroGraph                                int  // n macros with random PASTE edges (cycles possible) and a real PASTE
@@ -67,6 +70,7 @@ func randomCfg(r *rng) genCfg {
 	if r.chance(250) {
 		c.UnusedMacros = 1 + r.n(2)
 	}
+	c.TwinURLs = r.chance(200)
 	return c
 }
 
@@ -512,6 +516,22 @@ func generateDoc(r *rng, cfg genCfg) *Doc {
 			{KW: "GET", Kids: []*Node{{KW: "Path", Body: pb}, {KW: "200", Params: "any"}}},
 		}})
 	}
+	if cfg.TwinURLs {
+		mk := func() []*Node {
+			return []*Node{
+				{KW: "GET", Ann: "twin get", Kids: []*Node{
+					{KW: "Path", Body: []string{"{", `  "tid": 1 // {min: 1}`, "}"}},
+					{KW: "200", Params: "any"},
+					{KW: "404", Params: "any"},
+				}},
+				{KW: "DELETE", Kids: []*Node{{KW: "204", Params: "empty"}}},
+			}
+		}
+		a := &Node{KW: "URL", Params: "/twina/{tid}", Kids: mk()}
+		b := &Node{KW: "URL", Params: "/twinb/{tid}", Kids: mk()}
+		body = append(body, a, b)
+		d.twins = []*Node{a, b}
+	}
 	if cfg.MessyAnn {
 		var style func(nn []*Node)
 		style = func(nn []*Node) {
@@ -625,11 +645,25 @@ func (d *Doc) legalRuns() [][2]int {
 // un-cut single-file project and the cut multi-file project.
 func cutProject(d *Doc, r *rng, baseDir string, maxDepth int) (single, multi Project, ncuts int) {
 	text := d.Render()
-	return cutText(text, d.legalRuns(), r, baseDir, maxDepth)
+	runs := d.legalRuns()
+	if len(d.twins) > 0 && r.chance(600) {
+		// put the children run of the first twin in front: cutText takes runs[0] first when asked to
+		k := 1 + r.n(len(d.twins[0].Kids))
+		pref := [2]int{d.twins[0].Kids[0].from, d.twins[0].Kids[k-1].to}
+		runs = append([][2]int{pref}, runs...)
+		return cutTextPref(text, runs, r, baseDir, maxDepth, true)
+	}
+	return cutText(text, runs, r, baseDir, maxDepth)
 }
 
 // cutText cuts a text into files at the given legal runs (line ranges).
 func cutText(text string, runs [][2]int, r *rng, baseDir string, maxDepth int) (single, multi Project, ncuts int) {
+	return cutTextPref(text, runs, r, baseDir, maxDepth, false)
+}
+
+// cutTextPref is cutText; with first set, runs[0] is always among the chosen runs and its
+// identical twins elsewhere in the text are cut into the same file.
+func cutTextPref(text string, runs [][2]int, r *rng, baseDir string, maxDepth int, first bool) (single, multi Project, ncuts int) {
 	lines := strings.Split(strings.TrimSuffix(text, "\n"), "\n")
 	endsWithNL := strings.HasSuffix(text, "\n")
 	root := filepath.Join(baseDir, "main.jst")
@@ -637,6 +671,9 @@ func cutText(text string, runs [][2]int, r *rng, baseDir string, maxDepth int) (
 	single.set(root, []byte(text))
 	// choose a laminar (nested or disjoint) family of runs
 	var chosen [][2]int
+	if first && len(runs) > 0 {
+		chosen = append(chosen, runs[0])
+	}
 	want := 1 + r.n(5)
 	for tries := 0; tries < 40 && len(chosen) < want && len(runs) > 0; tries++ {
 		c := runs[r.n(len(runs))]
@@ -687,9 +724,12 @@ func cutText(text string, runs [][2]int, r *rng, baseDir string, maxDepth int) (
 		}
 	}
 	// identical runs elsewhere in the text: cut them too, so that one file is included several times
-	if len(chosen) > 0 && r.chance(600) {
+	if len(chosen) > 0 && (first || r.chance(600)) {
 		textOf := func(c [2]int) string { return strings.Join(lines[c[0]:c[1]], "\n") }
 		base := chosen[r.n(len(chosen))]
+		if first {
+			base = chosen[0]
+		}
 		bt := textOf(base)
 		for _, c := range runs {
 			if c == base || c[1]-c[0] != base[1]-base[0] || textOf(c) != bt {
